@@ -27,18 +27,25 @@ func init() {
 		tables.PrefixAll(p, r)
 		tables.DBLinkAgree(p, r)
 		tables.BlankLine(p, r)
+		tables.WrapJoin(p, r)
+		tables.QualFormat(p, r)
+		conserve.MapInit(p, r)
 		traps.NoDump(p, r)
 	})
 	register("C16", false, func(p *core.Prog, r *core.Report, tier string) {
 		tables.C16(p, r)
 		tables.ResidueClass(p, r)
+		tables.IndexExact(p, r)
 		traps.OriginLength(p, r, false)
 		globals.ShallowCache(p, r)
 	})
 	register("C02", true, func(p *core.Prog, r *core.Report, tier string) {
 		effects.PureOps(9, "Insert", "Embed", "(FeatureSlice).Insert", "*.Shift", "*.Expand")(p, r)
 		conserve.C02(p, r)
+		r.Rule("EDIT-CHAIN", "in gts insert / gts infix (where C02 is observed) every record written starts its chain of edits from the scanned record, not from the previous record written", 2)
+		conserve.EditChain(p, r, []string{"insert", "infix"})
 		conserve.NoReorder(p, r, "Shift", "Expand")
+		conserve.LocationMethodRules(p, r, "Shift", "Expand")
 		conserve.DelegateComplemented(p, r, "Shift", "Expand")
 		conserve.PartialCarry(p, r, "Shift", "Expand")
 		siblings.Shift(p, r)
@@ -51,6 +58,7 @@ func init() {
 		conserve.AsCompleteRules(p, r)
 		conserve.NormaliseFirst(p, r, 3, core.PkgGts, core.PkgSeqio, core.PkgMain)
 		conserve.SliceRegion(p, r)
+		conserve.LocationMethodRules(p, r, "Expand")
 		conserve.DelegateComplemented(p, r, "Expand")
 		conserve.Window(p, r)
 		conserve.EraseOrder(p, r)
@@ -79,6 +87,7 @@ func init() {
 		conserve.FilterRule(p, r)
 		conserve.QuantAll(p, r)
 		conserve.NotOfOr(p, r)
+		conserve.LessUnwrap(p, r)
 		conserve.QualifierRules(p, r)
 		conserve.ValuesOnly(p, r)
 		conserve.SelectorRules(p, r)
@@ -88,6 +97,7 @@ func init() {
 		effects.PureOps(8, "Rotate", "(FeatureSlice).Insert", "*.Shift", "*.Normalize")(p, r)
 		conserve.C04(p, r)
 		conserve.NoReorder(p, r, "Normalize", "Shift", "Expand")
+		conserve.LocationMethodRules(p, r, "Normalize", "Shift", "Expand")
 		conserve.NormaliseFirst(p, r, 3, core.PkgGts, core.PkgSeqio, core.PkgMain)
 		conserve.DelegateComplemented(p, r, "Shift", "Expand", "Normalize")
 		conserve.NormalizeArith(p, r)
@@ -100,7 +110,9 @@ func init() {
 	register("C05", true, func(p *core.Prog, r *core.Report, tier string) {
 		effects.PureOps(10, "Reverse", "Complement", "Transcribe", "*.Reverse", "*.Complement")(p, r)
 		conserve.C05(p, r)
+		conserve.ConcatOffset(p, r) // Region.Locate concatenates the slices of a multi-part location
 		conserve.NoReorder(p, r, "Reverse")
+		conserve.LocationMethodRules(p, r, "Reverse")
 		conserve.LocateRC(p, r)
 		conserve.MirrorArith(p, r)
 		conserve.DelegateComplemented(p, r, "Reverse")
@@ -112,6 +124,7 @@ func init() {
 		effects.PureOps(12, "Insert", "Embed", "Delete", "Slice", "Concat", "(FeatureSlice).Insert", "*.Shift", "*.Expand")(p, r)
 		conserve.C10(p, r)
 		conserve.AsCompleteRules(p, r)
+		conserve.LocationMethodRules(p, r, "Shift", "Expand")
 		conserve.NormaliseFirst(p, r, 3, core.PkgGts, core.PkgSeqio, core.PkgMain)
 		conserve.DelegateComplemented(p, r, "Shift", "Expand")
 		siblings.Shift(p, r)
@@ -119,6 +132,8 @@ func init() {
 	})
 	register("C08", false, func(p *core.Prog, r *core.Report, tier string) {
 		conserve.C08(p, r)
+		conserve.ConcatOffset(p, r) // Regions.Locate concatenates the slices of the segments
+		conserve.NoEarlyExit(p, r, core.PkgGts, "Regions.Resize", "for", "the walks that carry the offsets across the segments")
 		r.Rule("DEDUP-EXACT", "a membership helper of package main (shape func([]T, T) bool) decides membership by reflect.DeepEqual or == of the element and the candidate, nothing coarser (gts extract drops repeated regions with it: two different regions must both be extracted)", 1)
 		conserve.DedupExact(p, r)
 	})
@@ -134,14 +149,17 @@ func init() {
 		conserve.PushComplement(p, r)
 		conserve.PrintParse(p, r)
 		conserve.PrintTotal(p, r)
+		conserve.ParseReject(p, r)
 		conserve.LocGrammar(p, r)
 	})
 	register("C15", false, func(p *core.Prog, r *core.Report, tier string) {
 		conserve.C15(p, r)
+		conserve.ConcatOffset(p, r) // extract locates multi-segment regions by concatenating their slices
 		multi := []string{"delete", "insert", "infix", "split", "rotate", "extract"}
 		conserve.StaleGuard(p, r, multi)
 		conserve.EmitAll(p, r, multi, 4)
 		conserve.UniqueCuts(p, r)
+		conserve.FlushAll(p, r, multi, 6)
 		conserve.LocatorFresh(p, r)
 		orders.SegmentOrder(p, r)
 		orders.RegionAlgebra(p, r, 2)
@@ -150,6 +168,7 @@ func init() {
 		traps.C07(p, r)
 		traps.NoDump(p, r)
 		traps.OriginLength(p, r, true)
+		conserve.MapInit(p, r)
 	})
 	register("C11", true, func(p *core.Prog, r *core.Report, tier string) {
 		effects.C11(p, r)
@@ -167,9 +186,13 @@ func init() {
 		conserve.ConcatOffset(p, r)
 		conserve.UniqueCuts(p, r)
 		conserve.EmitAll(p, r, []string{"split"}, 1)
+		conserve.LocationMethodRules(p, r, "Expand")
+		conserve.NoEarlyExit(p, r, core.PkgGts, "Repair", "last", "the pass that groups the features and merges their locations")
+		conserve.FlushAll(p, r, []string{"split", "repair"}, 2)
 		r.NotDecided = append(r.NotDecided, "that a cut feature is restored to its original location", "idempotence", "which abutting fragments Push merges (partial3 meets partial5)", "that the residues covered by each class are unchanged")
 	})
 }
+
 
 
 
